@@ -119,11 +119,18 @@ static std::string show_dense(const std::vector<double> &B, int cols) {
     os << "}"; return os.str();
 }
 
+// number of rows of the near-null space this rank passed in (-1: none).  The parameter parser of amgcl wants
+// rows >= 1 and a non-null pointer, so an EMPTY rank has to pass one dummy row; it is cut off again here.
+static long& ns_true_rows() { static long r = -1; return r; }
+
 template <class C>
 struct recording {
     typedef typename C::params params;
     C base;
-    recording(const params &prm = params()) : base(prm) {}
+    recording(const params &prm = params()) : base(prm) {
+        NS *ns = nullspace_of(base);
+        if (ns && ns->cols > 0 && ns_true_rows() >= 0) ns->B.resize(ns_true_rows() * ns->cols);
+    }
     std::tuple< std::shared_ptr<DM>, std::shared_ptr<DM> >
     transfer_operators(const DM &A) {
         std::string a = show_strip(A);      // before the call: sort_rows inside may reorder, never change
@@ -202,12 +209,14 @@ MOP(solve) {
     auto D = dist(*A, p, p);
     // near-null space: ns.cols=K ns.B=v,v,...  (global, row-major n x K); every rank passes ITS rows
     std::vector<double> Bl;
+    ns_true_rows() = -1;
     if (prm.count("ns")) {
         int K = prm.get<int>("ns.cols"); std::vector<double> Bg = csv(prm.get<std::string>("ns.B"));
         prm.erase("ns");
         if ((long)Bg.size() != p.total * K) throw std::runtime_error("ns.B size");
         Bl.assign(Bg.begin() + p.b(world.rank) * K, Bg.begin() + p.e(world.rank) * K);
         if ((int)Bl.size() < K) Bl.resize(K, 0.0);  // empty rank: the parameter parser wants a pointer and rows >= 1
+        ns_true_rows() = p.n(world.rank);
         prm.put("precond.coarsening.aggr.nullspace.cols", K);
         prm.put("precond.coarsening.aggr.nullspace.rows", std::max<long>(1, p.n(world.rank)));
         prm.put("precond.coarsening.aggr.nullspace.B", static_cast<double*>(Bl.data()));
@@ -283,7 +292,10 @@ int main(int argc, char **argv) {
             if (it == ops().end()) out = "UNSUPPORTED";
             else {
                 try { out = it->second(t); }
-                catch (const std::exception &e) { out = std::string("EXC ") + vq::exc_kind(e) + " " + e.what(); }
+                catch (const std::exception &e) {
+                    out = std::string("EXC ") + vq::exc_kind(e) + " " + e.what();
+                    if (std::getenv("VQ_DEBUG")) std::cerr << "rank " << world.rank << ": " << out << std::endl;   // visible also when the other ranks hang
+                }
             }
             for (auto &c : out) if (c == ';' || c == '\n') c = ',';
             int mylen = (int)out.size();
